@@ -20,6 +20,7 @@ def strategy():
         cond_rate=5,
         focus=True,
         locked_rate=6,
+        bulk_plain=True,
     )
 
 
